@@ -44,6 +44,10 @@ class Budget(Exception):
     pass
 
 
+class Continue(Exception):
+    pass
+
+
 SOME = "core::option::Option::Some"
 NONE = "core::option::Option::None"
 OK = "core::result::Result::Ok"
@@ -118,6 +122,9 @@ class Evaluator:
         self._oracle = []
         self._taken = []
         self.index_events = []              # (line, base term, index term, decisions so far) for symbolic indexing
+        self.stubs = {}                     # substring of a callee path -> function(args) -> value | NotImplemented
+        self.lossy = []                     # why a folded VALUE cannot be trusted (skipped loop, lost early return, &mut call)
+        self._loop_depth = 0
         for c in facts.crates.values():
             for p, a in c.adts.items():
                 if a["kind"] == "enum":
@@ -325,6 +332,26 @@ class Evaluator:
                 if r is None:
                     unknown = True
             return None if unknown else True
+        if k == "slice":
+            if not isinstance(val, T):
+                return None
+            before, after, mid = pat.get("before") or [], pat.get("after") or [], pat.get("mid")
+            n_ = len(val.items)
+            if mid is None and n_ != len(before) + len(after):
+                return False
+            if n_ < len(before) + len(after):
+                return False
+            unknown = False
+            subs = list(zip(before, val.items[:len(before)])) + list(zip(after, val.items[n_ - len(after):] if after else []))
+            if mid is not None:
+                subs.append((mid, T(tuple(val.items[len(before):n_ - len(after)]))))
+            for sp, sv in subs:
+                r = self.bind(sp, sv, env)
+                if r is False:
+                    return False
+                if r is None:
+                    unknown = True
+            return None if unknown else True
         if k == "guard":
             r = self.bind(pat["pat"], val, env)
             if r is not True:
@@ -447,9 +474,11 @@ class Evaluator:
                                 self._safe(st["els"], dict(env))
                         install({name: Sym("pat", (name, v)) for name in pat_names(st["pat"])})
                 elif k == "semi":
-                    self.ev(st["e"], env)
+                    if _lost_control(self.ev(st["e"], env)):
+                        self.lossy.append("an early return / break under an undecided condition was dropped")
                 else:
-                    self.ev(st, env)
+                    if _lost_control(self.ev(st, env)):
+                        self.lossy.append("an early return / break under an undecided condition was dropped")
             if n.get("expr") is not None:
                 return self.ev(n["expr"], env)
             return T(())
@@ -723,7 +752,23 @@ class Evaluator:
             return None if k is None else (1, k)
         if isinstance(v, V) and v.path == NONE:
             return (0, 0)
+        if isinstance(v, V) and len(v.args) == 1 and self._ordered_newtype(v.path):
+            return self.cmp_key(v.args[0])
         return None
+
+    def _ordered_newtype(self, path):
+        """a one-field tuple struct whose ordering is that of its field: PartialOrd is derived (the comparison with a bare
+        f64 of FiniteF64 forwards to the field too: src/primitive.rs `impl PartialOrd<f64> for FiniteF64`)"""
+        cache = self.__dict__.setdefault("_newtype_cache", {})
+        if path not in cache:
+            ok = False
+            for c in self.facts.crates.values():
+                a = c.adts.get(path)
+                if a and a["kind"] == "struct" and len(a["variants"]) == 1 and len(a["variants"][0]["fields"]) == 1:
+                    ok = any(i.get("self_ty") == path and (i.get("trait") or "").endswith("cmp::PartialOrd") and i.get("derived")
+                             for i in c.impls)
+            cache[path] = ok
+        return cache[path]
 
     def ev_bin(self, n, env):
         op = n["op"]
@@ -875,12 +920,84 @@ class Evaluator:
         return Sym("index", (a, b))
 
     def ev_loop(self, n, env):
+        """`for` loops over a concrete array / vector / integer range are executed (bounded); every other loop is skipped
+        and recorded in `lossy`: a value folded from a function with a skipped loop is not a value of the function"""
+        if not self.fork and n.get("src") == "ForLoop":
+            r = self._run_for(n, env)
+            if r is not NotImplemented:
+                return r
+        self.lossy.append("loop")
+        # variables assigned in the body are unknown afterwards
+        for x in _walk_nodes(n["body"]):
+            if x.get("k") in ("assign", "assignop"):
+                tgt = x.get("lhs") or x.get("a") or {}
+                while isinstance(tgt, dict) and tgt.get("k") in ("field", "index", "un", "addr"):
+                    tgt = tgt.get("of") or tgt.get("e") or tgt.get("a") or {}
+                nm = (tgt.get("res") or {}).get("local") if isinstance(tgt, dict) and tgt.get("k") == "path" else None
+                if nm in env:
+                    env[nm] = Sym("loop-var", (nm,))
         return Sym("loop", ())
 
+    def _run_for(self, n, env):
+        body = n["body"]
+        st = body.get("stmts") or []
+        m = st[0] if (len(st) == 1 and body.get("expr") is None) else body.get("expr") if not st else None
+        if not isinstance(m, dict) or m.get("k") != "match" or m.get("src") != "ForLoopDesugar":
+            return NotImplemented
+        sc = m["scrut"]
+        if not str(sc.get("fn", "")).endswith("Iterator::next") or not sc.get("args"):
+            return NotImplemented
+        it = sc["args"][0]
+        while it.get("k") in ("addr",):
+            it = it["e"]
+        name = (it.get("res") or {}).get("local") if it.get("k") == "path" else None
+        seq = env.get(name)
+        if isinstance(seq, Range) and isinstance(seq.lo, int) and isinstance(seq.hi, int):
+            items = list(range(seq.lo, seq.hi + (1 if seq.inclusive else 0)))
+        elif isinstance(seq, T):
+            items = list(seq.items)
+        else:
+            return NotImplemented
+        if len(items) > 4096:
+            return NotImplemented
+        some_arm = next((a for a in m["arms"] if "Some" in str((a["pat"].get("path") or {}).get("def", ""))), None)
+        if some_arm is None:
+            return NotImplemented
+        self._loop_depth += 1
+        try:
+            for v in items:
+                self._tick()
+                e2 = {}
+                sp = some_arm["pat"]
+                inner = None
+                if sp.get("k") == "struct" and len(sp.get("fields") or []) == 1:
+                    inner = sp["fields"][0][1]
+                elif sp.get("k") == "tstruct" and len(sp.get("pats") or []) == 1:
+                    inner = sp["pats"][0]
+                ok = self.bind(inner, v, e2) if inner is not None else self.bind(sp, some(v), e2)
+                if ok is not True:
+                    self.lossy.append("loop-pattern")
+                    return Sym("loop", ())
+                try:
+                    r = self._in_scope(some_arm["body"], env, e2)
+                    if _lost_control(r):
+                        self.lossy.append("undecided control flow in a loop body")
+                except Continue:
+                    continue
+                except Break:
+                    break
+        finally:
+            self._loop_depth -= 1
+        return T(())
+
     def ev_break(self, n, env):
+        if self._loop_depth and not self.fork:
+            raise Break(None)
         return Sym("break", ())
 
     def ev_continue(self, n, env):
+        if self._loop_depth and not self.fork:
+            raise Continue()
         return Sym("continue", ())
 
     def ev_repeat(self, n, env):
@@ -935,6 +1052,12 @@ class Evaluator:
                 path.startswith("core::panicking::panic"):
             macros = self.panic_from_macro(n)
             raise Panic("panic (%s)" % ",".join(macros), line_of(n))
+        for key, st in self.stubs.items():
+            # a rule may replace an opaque callee by the outcomes it wants to distinguish (e.g. a lookup that hits / misses)
+            if key in target or key in path:
+                r = st(args)
+                if r is not NotImplemented:
+                    return r
         b = BUILTINS.get(path) or BUILTINS.get(target)
         if b is not None:
             r = b(self, n, args)
@@ -949,7 +1072,40 @@ class Evaluator:
             return self._call(f, args)
         r = Sym("call", (target if f is not None else path, tuple(args)))
         self.trace.append(r)
+        for an in (n.get("args") or []) + ([n["recv"]] if isinstance(n.get("recv"), dict) else []):
+            if isinstance(an, dict) and an.get("k") == "addr" and an.get("mut"):
+                t = an["e"]
+                while isinstance(t, dict) and t.get("k") in ("field", "index"):
+                    t = t.get("of") or t.get("a") or {}
+                nm = (t.get("res") or {}).get("local") if isinstance(t, dict) and t.get("k") == "path" else None
+                if nm in env:
+                    env[nm] = Sym("mutated-by", (nm, r))
+                    self.lossy.append("a local was passed by &mut to an opaque callee")
         return r
+
+
+def _walk_nodes(n):
+    if isinstance(n, dict):
+        yield n
+        for v in n.values():
+            yield from _walk_nodes(v)
+    elif isinstance(n, list):
+        for v in n:
+            yield from _walk_nodes(v)
+
+
+def _lost_control(v, depth=0):
+    """does a value produced in statement position hide a `return` / `break` / panic taken under an undecided condition?"""
+    if depth > 12:
+        return False
+    if isinstance(v, Sym):
+        if v.what in ("return", "break", "continue", "panic"):
+            return True
+        if v.what in ("ite", "match", "arm", "phi"):
+            return any(_lost_control(p, depth + 1) for p in v.parts if isinstance(p, (Sym, tuple)))
+    if isinstance(v, tuple) and not isinstance(v, (V, S, T, Sym, Range, Closure)):
+        return any(_lost_control(p, depth + 1) for p in v)
+    return False
 
 
 def pat_show(p):
@@ -988,9 +1144,11 @@ def pat_names(p):
     if k == "bind":
         return [p["name"]] + (pat_names(p["sub"]) if p.get("sub") else [])
     out = []
-    for key in ("pats",):
+    for key in ("pats", "before", "after"):
         for s in p.get(key, []):
             out += pat_names(s)
+    if isinstance(p.get("mid"), dict):
+        out += pat_names(p["mid"])
     if "pat" in p and isinstance(p["pat"], dict):
         out += pat_names(p["pat"])
     for f in p.get("fields", []):
@@ -1353,6 +1511,242 @@ for _t in INT_BITS:
     BUILTINS["core::num::<impl %s>::unsigned_abs" % _t] = _b_abs
 BUILTINS["core::cmp::Ord::clamp"] = _b_clamp
 
+
+
+def _callable(ev, f, args):
+    """apply a closure or a function reference to argument values (None when neither)"""
+    if isinstance(f, Closure):
+        return ev.apply_closure(f, list(args))
+    if isinstance(f, Sym) and f.what == "fnref":
+        fn = ev.lookup_fn(f.parts[0])
+        if fn is not None:
+            return ev._call(fn, list(args))
+        b = BUILTINS.get(f.parts[0])
+        if b is not None:
+            r = b(ev, {}, list(args))
+            if r is not NotImplemented:
+                return r
+    return None
+
+
+def _b_and_then(ev, n, a):
+    o, f = a
+    if isinstance(o, V):
+        if o.path in (NONE, ERR):
+            return o
+        if o.path in (SOME, OK):
+            r = _callable(ev, f, [o.args[0]])
+            if r is not None:
+                return r
+    return Sym("and_then", (o, f))
+
+
+def _b_or_else(ev, n, a):
+    o, f = a
+    if isinstance(o, V):
+        if o.path in (SOME, OK):
+            return o
+        if o.path == NONE:
+            r = _callable(ev, f, [])
+            if r is not None:
+                return r
+        if o.path == ERR:
+            r = _callable(ev, f, [o.args[0]])
+            if r is not None:
+                return r
+    return Sym("or_else", (o, f))
+
+
+def _b_or(ev, n, a):
+    o, d = a
+    if isinstance(o, V):
+        if o.path in (SOME, OK):
+            return o
+        if o.path in (NONE, ERR):
+            return d
+    return Sym("or", (o, d))
+
+
+def _b_unwrap_or_else(ev, n, a):
+    o, f = a
+    if isinstance(o, V):
+        if o.path in (SOME, OK):
+            return o.args[0]
+        r = _callable(ev, f, [] if o.path == NONE else [o.args[0]]) if o.path in (NONE, ERR) else None
+        if r is not None:
+            return r
+    return Sym("unwrap_or_else", (o, f))
+
+
+def _b_filter(ev, n, a):
+    o, f = a
+    if isinstance(o, V):
+        if o.path == NONE:
+            return o
+        if o.path == SOME:
+            r = _callable(ev, f, [o.args[0]])
+            if r is True:
+                return o
+            if r is False:
+                return V(NONE, ())
+    return Sym("filter", (o, f))
+
+
+def _b_is_ok_and(ev, n, a):
+    o, f = a
+    if isinstance(o, V) and o.path == ERR:
+        return False
+    if isinstance(o, V) and o.path == OK:
+        r = _callable(ev, f, [o.args[0]])
+        if isinstance(r, bool):
+            return r
+    return Sym("is_ok_and", (o,))
+
+
+def _b_then(ev, n, a):
+    c, f = a
+    if c is False:
+        return V(NONE, ())
+    if c is True:
+        r = _callable(ev, f, [])
+        if r is not None:
+            return some(r)
+    return Sym("then", (c, f))
+
+
+def _b_then_some(ev, n, a):
+    c, v = a
+    if c is False:
+        return V(NONE, ())
+    if c is True:
+        return some(v)
+    return Sym("then_some", (c, v))
+
+
+def _b_transpose(ev, n, a):
+    o = a[0]
+    if isinstance(o, V):
+        if o.path == NONE:
+            return V(OK, (V(NONE, ()),))
+        if o.path == SOME and isinstance(o.args[0], V) and o.args[0].path == OK:
+            return V(OK, (some(o.args[0].args[0]),))
+        if o.path == SOME and isinstance(o.args[0], V) and o.args[0].path == ERR:
+            return o.args[0]
+    return Sym("transpose", (o,))
+
+
+def _int_target(n):
+    import re as _re
+    ty = n.get("ty") or ""
+    m = _re.match(r"core::result::Result<(\w+),", ty)
+    return m.group(1) if m and m.group(1) in INT_BITS else None
+
+
+def _b_try_from_int(ev, n, a):
+    """integer -> integer TryFrom / TryInto (the target is the Ok type of the call's result type)"""
+    v = a[0]
+    t = _int_target(n)
+    if t is None or not isinstance(v, int) or isinstance(v, bool):
+        return NotImplemented
+    bits = INT_BITS[t]
+    lo, hi = (0, (1 << bits) - 1) if t.startswith("u") else (-(1 << (bits - 1)), (1 << (bits - 1)) - 1)
+    if lo <= v <= hi:
+        return V(OK, (v,))
+    return V(ERR, (Sym("TryFromIntError", ()),))
+
+
+def _arith_checked(op):
+    def f(ev, n, a):
+        x, y = a
+        if not all(isinstance(v, int) and not isinstance(v, bool) for v in (x, y)):
+            return NotImplemented
+        import re as _re
+        m = _re.match(r"core::option::Option<(\w+)>", n.get("ty") or "")
+        t = m.group(1) if m else None
+        if t not in INT_BITS:
+            return NotImplemented
+        r = {"add": x + y, "sub": x - y, "mul": x * y}[op]
+        return some(r) if wrap_int(r, t) == r else V(NONE, ())
+    return f
+
+
+def _arith_saturating(op):
+    def f(ev, n, a):
+        x, y = a
+        t = n.get("ty")
+        if t not in INT_BITS or not all(isinstance(v, int) and not isinstance(v, bool) for v in (x, y)):
+            return NotImplemented
+        bits = INT_BITS[t]
+        lo, hi = (0, (1 << bits) - 1) if t.startswith("u") else (-(1 << (bits - 1)), (1 << (bits - 1)) - 1)
+        r = {"add": x + y, "sub": x - y, "mul": x * y}[op]
+        return min(max(r, lo), hi)
+    return f
+
+
+def _b_second(ev, n, a):
+    return a[1] if len(a) > 1 else NotImplemented
+
+
+def _b_seq_identity(ev, n, a):
+    return a[0] if isinstance(a[0], (T, Range)) else NotImplemented
+
+
+def _b_len(ev, n, a):
+    return len(a[0].items) if isinstance(a[0], T) else NotImplemented
+
+
+def _b_first(ev, n, a):
+    if isinstance(a[0], T):
+        return some(a[0].items[0]) if a[0].items else V(NONE, ())
+    return NotImplemented
+
+
+def _b_last(ev, n, a):
+    if isinstance(a[0], T):
+        return some(a[0].items[-1]) if a[0].items else V(NONE, ())
+    return NotImplemented
+
+
+def _b_is_empty(ev, n, a):
+    return (len(a[0].items) == 0) if isinstance(a[0], T) else NotImplemented
+
+
+BUILTINS.update({
+    "core::slice::<impl [T]>::first": _b_first,
+    "core::slice::<impl [T]>::last": _b_last,
+    "core::slice::<impl [T]>::is_empty": _b_is_empty,
+    "alloc::vec::Vec::<T, A>::is_empty": _b_is_empty,
+    "alloc::vec::Vec::<T, A>::as_slice": _b_seq_identity,
+    "alloc::boxed::box_assume_init_into_vec_unsafe": _b_seq_identity,
+    "alloc::intrinsics::write_box_via_move": _b_second,
+    "alloc::slice::<impl [T]>::into_vec": _b_seq_identity,
+    "alloc::boxed::Box::<T>::new": _b_identity,
+    "core::iter::traits::collect::IntoIterator::into_iter": _b_seq_identity,
+    "core::slice::<impl [T]>::iter": _b_seq_identity,
+    "core::slice::<impl [T]>::len": _b_len,
+    "alloc::vec::Vec::<T, A>::len": _b_len,
+    "core::iter::traits::iterator::Iterator::copied": _b_seq_identity,
+    "core::iter::traits::iterator::Iterator::cloned": _b_seq_identity,
+    "core::option::Option::<T>::and_then": _b_and_then,
+    "core::result::Result::<T, E>::and_then": _b_and_then,
+    "core::option::Option::<T>::or_else": _b_or_else,
+    "core::result::Result::<T, E>::or_else": _b_or_else,
+    "core::option::Option::<T>::or": _b_or,
+    "core::result::Result::<T, E>::or": _b_or,
+    "core::option::Option::<T>::unwrap_or_else": _b_unwrap_or_else,
+    "core::result::Result::<T, E>::unwrap_or_else": _b_unwrap_or_else,
+    "core::option::Option::<T>::filter": _b_filter,
+    "core::result::Result::<T, E>::is_ok_and": _b_is_ok_and,
+    "core::bool::<impl bool>::then": _b_then,
+    "core::bool::<impl bool>::then_some": _b_then_some,
+    "core::option::Option::<core::result::Result<T, E>>::transpose": _b_transpose,
+    "core::convert::TryFrom::try_from": _b_try_from_int,
+    "core::convert::TryInto::try_into": _b_try_from_int,
+})
+for _t in INT_BITS:
+    for _op in ("add", "sub", "mul"):
+        BUILTINS["core::num::<impl %s>::checked_%s" % (_t, _op)] = _arith_checked(_op)
+        BUILTINS["core::num::<impl %s>::saturating_%s" % (_t, _op)] = _arith_saturating(_op)
 
 def _f64(fn):
     def f(ev, n, a):
